@@ -9,7 +9,46 @@ import (
 	"math/rand"
 	"reflect"
 	"strings"
+	"time"
 )
+
+// layouts handed to Time / MustTime / Times / MustTimes
+var c08Layouts = []string{time.RFC3339, time.RFC3339Nano, "2006-01-02", time.Kitchen, time.RFC1123Z, "2006-01-02 15:04:05.000",
+	"15:04", "Jan _2 2006", "", "x", "20060102T150405Z0700", time.UnixDate, "2006-01-02T15:04:05.999999999Z07:00:00", "02/01/06 03PM"}
+
+var c08TimeTexts = []string{"", "2020-12-28T18:36:43Z", "2020-12-28T18:36:43.123456789+02:00", "2020-12-28", "2020-13-01", "2020-02-30", "2020-02-29",
+	"2019-02-29", "2016-12-31T23:59:60Z", "0000-01-01T00:00:00Z", "9999-12-31T23:59:59.999999999Z", "10000-01-01T00:00:00Z", "2020-12-28T18:36:43+24:00",
+	"2020-12-28T18:36:43", "2020-12-28T18:36:43Z ", " 2020-12-28T18:36:43Z", "2020-12-28t18:36:43z", "3:04PM", "13:04PM", "x", "xx", "1609180603", "-1", "!x",
+	"2020-12-28T18:36:43.Z", "2020-12-28T18:36:43,5Z", "Mon, 28 Dec 2020 18:36:43 +0000", "Dec  8 2020", "20201228T183643Z", "20201228T183643+0530"}
+
+func c08RandTime(r *rand.Rand) time.Time {
+	t := time.Unix(r.Int63n(4000000000)-1000000000, int64(r.Intn(3))*int64(r.Intn(1000000000))).UTC()
+	if r.Intn(3) == 0 {
+		t = t.In(time.FixedZone("", (r.Intn(27)-13)*1800))
+	}
+	return t
+}
+
+// a text for a Time destination: formatted with the call's layout, with another layout, an
+// edge case, or a damaged valid text
+func c08TimeText(r *rand.Rand, layout string, pBad int) string {
+	valid := c08RandTime(r).Format(layout)
+	if r.Intn(100) >= pBad {
+		return valid
+	}
+	switch r.Intn(4) {
+	case 0:
+		return c08RandTime(r).Format(c08Layouts[r.Intn(len(c08Layouts))])
+	case 1:
+		return c08TimeTexts[r.Intn(len(c08TimeTexts))]
+	case 2:
+		if len(valid) > 0 {
+			k := r.Intn(len(valid))
+			return valid[:k] + []string{"", "x", " ", "9", "-", "Z"}[r.Intn(6)] + valid[k+1:]
+		}
+	}
+	return valid + []string{"", " ", "Z", "0", "x"}[r.Intn(5)]
+}
 
 // decimal boundaries of every width: ±(2^w + {-1,0,1}) for w in 7,8,15,16,31,32,63,64
 func c08Boundaries() []string {
@@ -203,6 +242,8 @@ func c08ValidFor(r *rand.Rand, fam int, E reflect.Type) string {
 	case famUnm:
 		l := []string{"abc", "x", "0", "hello world", "a,b", "ünï"}
 		return l[r.Intn(len(l))]
+	case famTime:
+		return c08TimeCanon(c08RandTime(r)) // used for initial values only
 	}
 	l := []string{"abc", "x", "0", "hello world", "a b", "ünï", "!bang"}
 	return l[r.Intn(len(l))]
@@ -294,6 +335,38 @@ func c08InitFor(r *rand.Rand, fam int, E reflect.Type) string {
 func c08NewCall(r *rand.Rand, mi c08MI, delimElem string, pBad int) *c08Call {
 	cl := &c08Call{Method: mi.Name, Elem: delimElem}
 	fam, E := mi.Fam, mi.E
+	if fam == famTime {
+		cl.Layout = c08Layouts[r.Intn(len(c08Layouts))]
+		if r.Intn(2) == 0 {
+			cl.Layout = c08Layouts[r.Intn(3)]
+		}
+		nv := 1
+		if mi.Slice {
+			nv = 1 + r.Intn(3)
+		}
+		for i := 0; i < nv; i++ {
+			cl.Values = append(cl.Values, c08TimeText(r, cl.Layout, pBad))
+		}
+		switch r.Intn(12) {
+		case 0:
+			cl.Values = nil
+		case 1:
+			cl.Values[0] = ""
+		}
+		if mi.Slice {
+			if r.Intn(2) == 0 {
+				cl.InitNil = true
+			} else {
+				cl.Init = []string{}
+				for i := 0; i < r.Intn(3); i++ {
+					cl.Init = append(cl.Init, c08TimeCanon(c08RandTime(r)))
+				}
+			}
+		} else {
+			cl.Init = []string{c08TimeCanon(c08RandTime(r))}
+		}
+		return cl
+	}
 	if delimElem != "" {
 		if mi.Fam == famUnm { // unsupported destination: texts do not matter
 			fam, E = famInt, reflect.TypeOf(int64(0))
@@ -314,6 +387,9 @@ func c08NewCall(r *rand.Rand, mi c08MI, delimElem string, pBad int) *c08Call {
 		}
 	} else if mi.Slice {
 		nv := 1 + r.Intn(3)
+		if r.Intn(40) == 0 { // rare sizes: long value lists
+			nv = []int{20, 21, 64, 65, 130}[r.Intn(5)]
+		}
 		for i := 0; i < nv; i++ {
 			cl.Values = append(cl.Values, c08GenText(r, fam, E, pBad/2))
 		}
@@ -361,12 +437,34 @@ func c08RandCall(r *rand.Rand, pBad int) *c08Call {
 	return c08NewCall(r, ms[r.Intn(len(ms))], "", pBad)
 }
 
+func c08RandCustom(r *rand.Rand, pBad int) *c08Custom {
+	cu := &c08Custom{Must: r.Intn(3) == 0, Mode: []string{"", "", "sloppy", "empty"}[r.Intn(4)]}
+	for i := 0; i < 1+r.Intn(3); i++ {
+		v := []string{"a", "b", "hello", "1", "x!y", ""}[r.Intn(6)]
+		if r.Intn(100) < pBad {
+			v = "!" + v
+		}
+		cu.Values = append(cu.Values, v)
+	}
+	if r.Intn(8) == 0 {
+		cu.Values = nil
+	}
+	if r.Intn(2) == 0 {
+		cu.InitNil = true
+	} else {
+		cu.Init = []string{"init"}[:r.Intn(2)]
+	}
+	return cu
+}
+
 func c08GenChain(r *rand.Rand) *c08Case {
-	c := &c08Case{Kind: "vb", FailFast: r.Intn(10) < 6, Binder: []string{"", "", "form", "path"}[r.Intn(4)]}
+	c := &c08Case{Kind: "vb", FailFast: r.Intn(10) < 6, Binder: []string{"", "", "form", "path", "multipart"}[r.Intn(5)]}
 	n := 2 + r.Intn(5)
 	pBad := []int{5, 25, 50}[r.Intn(3)]
 	for i := 0; i < n; i++ {
 		switch k := r.Intn(100); {
+		case k < 8:
+			c.Ops = append(c.Ops, c08Op{Kind: "custom", Custom: c08RandCustom(r, pBad)})
 		case k < 80:
 			c.Ops = append(c.Ops, c08Op{Kind: "call", Call: c08RandCall(r, pBad)})
 		case k < 87:
@@ -460,6 +558,51 @@ func c08Probe(r *rand.Rand) []any {
 		for _, s := range c08Pool {
 			if !strings.Contains(s, ",") {
 				add(mi, el, s)
+			}
+		}
+	}
+	// Time / MustTime / Times / MustTimes (and any later method with a third string argument):
+	// every layout x {valid text, text of another layout, edge texts}, alone and after a failing call
+	bad := &c08Call{Method: "Int8", Values: []string{"128"}, Init: []string{"7"}}
+	for _, mi := range c08Methods() {
+		if !mi.Extra {
+			continue
+		}
+		for _, layout := range c08Layouts {
+			texts := append([]string{c08RandTime(r).Format(layout), c08RandTime(r).Format(layout), c08RandTime(r).Format(c08Layouts[r.Intn(3)])}, c08TimeTexts...)
+			for _, txt := range texts {
+				cl := c08NewCall(r, mi, "", 0)
+				cl.Layout = layout
+				cl.Values = []string{txt}
+				if mi.Slice && r.Intn(2) == 0 {
+					cl.Values = []string{c08RandTime(r).Format(layout), txt, c08RandTime(r).Format(layout)}
+				}
+				ops := []c08Op{{Kind: "call", Call: cl}, {Kind: "binderrors"}}
+				if r.Intn(4) == 0 { // the binder already holds an error
+					ops = append([]c08Op{{Kind: "call", Call: bad}}, ops...)
+				}
+				out = append(out, &c08Case{Kind: "vb", FailFast: r.Intn(2) == 0, Binder: []string{"", "form", "path"}[r.Intn(3)], Ops: ops})
+			}
+		}
+	}
+	// CustomFunc / MustCustomFunc: alone, after a failing call, followed by a typed call
+	for _, must := range []bool{false, true} {
+		for _, mode := range []string{"", "sloppy", "empty"} {
+			for _, vals := range [][]string{nil, {""}, {"a"}, {"a", "b"}, {"!a"}, {"a", "!b", "!c"}, {"!a", "b"}} {
+				for _, ff := range []bool{true, false} {
+					for variant := 0; variant < 3; variant++ {
+						cu := &c08Custom{Must: must, Mode: mode, Values: vals, InitNil: variant == 0, Init: []string{"init"}}
+						good := &c08Call{Method: "Int16", Values: []string{"12"}, Init: []string{"7"}}
+						ops := []c08Op{{Kind: "custom", Custom: cu}, {Kind: "call", Call: good}, {Kind: "binderrors"}}
+						switch variant {
+						case 1:
+							ops = append([]c08Op{{Kind: "call", Call: bad}}, ops...)
+						case 2:
+							ops = []c08Op{{Kind: "custom", Custom: cu}, {Kind: "custom", Custom: cu}, {Kind: "binderror"}, {Kind: "custom", Custom: cu}, {Kind: "binderrors"}}
+						}
+						out = append(out, &c08Case{Kind: "vb", FailFast: ff, Binder: []string{"", "form", "path"}[variant], Ops: ops})
+					}
+				}
 			}
 		}
 	}
@@ -633,6 +776,26 @@ func c08Shrink(ci any) []any {
 		}
 	}
 	for i, op := range c.Ops {
+		if op.Kind == "custom" && op.Custom != nil {
+			for j := range op.Custom.Values {
+				if len(op.Custom.Values) > 1 {
+					n := *op.Custom
+					n.Values = append(append([]string(nil), op.Custom.Values[:j]...), op.Custom.Values[j+1:]...)
+					d := *c
+					d.Ops = append([]c08Op(nil), c.Ops...)
+					d.Ops[i] = c08Op{Kind: "custom", Custom: &n}
+					out = append(out, &d)
+				}
+			}
+			if op.Custom.Mode != "" {
+				n := *op.Custom
+				n.Mode = ""
+				d := *c
+				d.Ops = append([]c08Op(nil), c.Ops...)
+				d.Ops[i] = c08Op{Kind: "custom", Custom: &n}
+				out = append(out, &d)
+			}
+		}
 		if op.Kind != "call" || op.Call == nil {
 			continue
 		}
